@@ -73,6 +73,18 @@ PROPS = {
              "non-trivial = a malformed input was delivered; distinct = canonical event trace",
              {"runs": 6000, "budget_s": 35}, {"runs": 600000, "budget_s": 900},
              must={"all": ["raw-requests", "token-raw-body", "store-lie", "jwks-raw-body", "discovery-raw-body"]}),
+    "C12": P("plans = sequences of 5-80 store operations (set/get tokens, set/get/clear login state, remove, sweep, clock advance) over 1-4 session ids, each routed to the memory store or to one of "
+             "two Redis store instances sharing one miniredis; after every operation the return value is compared with a plain-map model and the complete ground-truth content of each store is "
+             "compared with the model (tokens, login state, creation time, no foreign ids); a third of the plans inject Redis command failures (before/after effect) and crashes between the "
+             "commands of one store method, judged with the narrow prefix-of-writes relaxation; non-trivial = a session was created and read; distinct = operation/result trace",
+             {"runs": 12000, "budget_s": 30}, {"runs": 1200000, "budget_s": 900},
+             must={"all": ["overwrite-with-fewer-members", "clear-on-live-session", "remove-live-session", "same-id-on-both-redis-instances", "methods-interrupted-by-fault", "redis-cmd-err-before", "redis-cmd-err-after", "crash-between-redis-commands"]}),
+    "C10": P("plans = (absolute, idle) pairs from {0,1 s,5 s,1 min,10 min,1 h,1 d,30 d}^2; store level: histories of 5-60 operations on the memory store and two Redis store instances with clock advances "
+             "placed on either side of each limit (limit-2 s, limit+2 s, fractions, multiples); system level: a browser logs in at a replica built through the start-up wiring with long-lived tokens, the clock "
+             "advances and a request probes the session (plus crash-restart with Redis); the oracle allows one second of granularity; non-trivial = a session was read inside or past its limits; "
+             "distinct = operation/result trace",
+             {"runs": 12000, "budget_s": 30}, {"runs": 1200000, "budget_s": 900},
+             must={"all": ["reads-past-limits", "reads-inside-limits", "system-reads-past-limits", "system-reads-inside-limits"]}),
 }
 
 
